@@ -1,7 +1,7 @@
 (* C01 — Overlapping search reports every occurrence of every pattern exactly once.
    Pinned statements only; proofs in Proofs/GenAC.v, Proofs/BwCert.v, Theory/SpecAdequacy.v. *)
 From DV Require Import Model.Base Model.Nfa Model.BwBuild Model.BwSearch Model.Api Model.Spec
-     Model.Cert Proofs.BwCert Theory.SpecAdequacy.
+     Model.Cert Proofs.BwCert Theory.SpecAdequacy Model.Utf8 Model.CwBuild Proofs.Utf8Props Proofs.CwCert.
 From Coq Require Import Sorted.
 Local Open Scope N_scope.
 
@@ -31,6 +31,18 @@ Theorem spec_overlapping_ordered :
 Proof. exact spec_overlapping_sorted. Qed.
 Print Assumptions spec_overlapping_ordered.
 
+(* Character-wise automaton: patterns are lists of Unicode scalar values, the haystack is the UTF-8
+   encoding of ANY text cs; the result is the character-level specification with its positions
+   translated to byte offsets ([to_bytes cs (s, e, v)] = (bytes before character s, bytes before
+   character e, v)), so every reported offset falls on a character boundary. *)
+Theorem cw_overlapping_correct :
+  forall (V : Type) (veqb : V -> V -> bool), (forall a b, veqb a b = true -> a = b) ->
+  forall (A : cw_automaton V) (pvs : list (list N * V)), cw_cert_ok veqb A pvs = true ->
+  forall cs : list N, Forall scalar cs ->
+    cw_find_overlapping_iter V A (encode_utf8 cs) = Ok (map (to_bytes V cs) (spec_overlapping V pvs cs)).
+Proof. intros V veqb Hv A pvs C cs Hs. exact (cw_overlapping_correct_lemma V veqb Hv A pvs C cs Hs). Qed.
+Print Assumptions cw_overlapping_correct.
+
 (* Non-vacuity: the automaton the model builds for {bcd, ab, a, b} (values 7,8,9,7) passes the
    checker, and the theorem's conclusion is observed on a haystack. *)
 Definition ex_pvs : list (list N * Z) :=
@@ -40,6 +52,17 @@ Example c01_hypotheses_met :
   | Ok A => bw_cert_ok Z.eqb A ex_pvs = true
             /\ bw_find_overlapping_iter Z A [97; 98; 99; 100; 0; 255]
                = Ok [(0, 1, 9%Z); (0, 2, 8%Z); (1, 2, 7%Z); (1, 4, 7%Z)]%nat
+  | _ => False
+  end.
+Proof. vm_compute. split; reflexivity. Qed.
+
+(* Non-vacuity, character-wise: patterns "é😀", "😀", "aé" over a text with all four widths. *)
+Definition ex_cpvs : list (list N * Z) := [([233; 128512], 1%Z); ([128512], 2%Z); ([97; 233], 3%Z)].
+Example c01_cw_hypotheses_met :
+  match cw_build_with_values Z Standard 16 ex_cpvs with
+  | Ok A => cw_cert_ok Z.eqb A ex_cpvs = true
+            /\ cw_find_overlapping_iter Z A (encode_utf8 [97; 233; 128512; 12354; 128512])
+               = Ok [(0, 3, 3%Z); (1, 7, 1%Z); (3, 7, 2%Z); (10, 14, 2%Z)]%nat
   | _ => False
   end.
 Proof. vm_compute. split; reflexivity. Qed.
